@@ -512,6 +512,13 @@ func Quiesce() {
 		}
 		return true
 	}})
+	// observing quiescence is a harness-level barrier: what the other threads did happens-before what
+	// the caller does next (otherwise the harness's own end-state inspection would look like a race)
+	for _, t := range s.threads {
+		if t != me {
+			me.vc = joinVC(me.vc, t.vc)
+		}
+	}
 }
 
 // ---- sorted map keys (rewritten map ranges) ----
